@@ -139,7 +139,9 @@ class Input(ContextManager["Input"]):
             self.wakeup_read_fd, self.wakeup_write_fd = os.pipe()
             wfd = self.wakeup_write_fd
             os.set_blocking(wfd, False)
-            signal.set_wakeup_fd(wfd, warn_on_full_buffer=False)
+            self.orig_wakeup_fd = signal.set_wakeup_fd(
+                wfd, warn_on_full_buffer=False
+            )
 
         return self
 
@@ -156,7 +158,7 @@ class Input(ContextManager["Input"]):
         ):
             signal.signal(signal.SIGINT, self.orig_sigint_handler)
         if is_main_thread():
-            signal.set_wakeup_fd(-1)
+            signal.set_wakeup_fd(self.orig_wakeup_fd)
             if self.wakeup_read_fd is not None:
                 os.close(self.wakeup_read_fd)
             if self.wakeup_write_fd is not None:
